@@ -64,7 +64,7 @@ Lemma pending_discharged s sched :
   Inv s -> pend (v s) >= 1 -> terminalb (run s sched) = true -> v s started < v (run s sched) started.
 Proof.
   revert s. induction sched as [|p rest IH]; intros s HI HP HT.
-  - exfalso. cbn in HT. pose proof (proj1 (terminalb_spec s) HT) as HN.
+  - exfalso. unfold run in HT. cbn [run_gen] in HT. pose proof (proj1 (terminalb_spec s) HT) as HN.
     pose proof (terminal_all_answered_no_residue s HI HN) as HR. unfold pend in HP. unfold in_flight in HR. lia.
   - unfold run in *. cbn [run_gen] in *. fold step in *. destruct (step s p) as [s'|] eqn:HS; [|apply IH; assumption].
     pose proof (Inv_step _ _ _ HI HS) as HI'.
@@ -103,6 +103,12 @@ Proof.
   - pose proof (pending_discharged s' sched2 HI' (HF3 HF4 HF1) HT). lia.
 Qed.
 
+Lemma forallb_false_ex (A : Type) (g : A -> bool) (l : list A) : forallb g l = false -> exists x, g x = false.
+Proof.
+  induction l as [|x rest IH]; cbn [forallb]; [discriminate|]. intros H.
+  destruct (g x) eqn:Hx; [apply IH; exact H|exists x; exact Hx].
+Qed.
+
 (* ... and every run can be continued to completion (and every maximal run is finite: step_terminates) *)
 Theorem terminal_reachable : forall s, exists sched, terminalb (run s sched) = true.
 Proof.
@@ -110,7 +116,8 @@ Proof.
   destruct (terminalb s) eqn:HT; [exists []; exact HT|].
   assert (HE : exists p s', step s p = Some s').
   { unfold terminalb, terminalb_gen in HT. fold step in HT.
-    destruct (forallb_exists_false _ _ HT) as (p & HP). exact HP. }
+    destruct (forallb_false_ex _ _ _ HT) as (p & HP). exists p.
+    destruct (step s p) as [s'|]; [exists s'; reflexivity|discriminate HP]. }
   destruct HE as (p & s' & HS). destruct (IH s' (ex_intro _ p HS)) as [sched Hs].
   exists (p :: sched). unfold run in *. cbn [run_gen]. fold step. rewrite HS. exact Hs.
 Qed.
@@ -141,8 +148,9 @@ Lemma run2_proj : forall sched s, run2 s sched = (run (fst s) (proj K1 sched), r
 Proof.
   induction sched as [|[k p] rest IH]; intros [s1 s2]; [reflexivity|].
   cbn [run2]. unfold step2, proj. cbn [fst snd comp filter].
-  destruct k; cbn [key_eqb map]; unfold run; cbn [run_gen]; fold step;
-    (destruct (step _ p) as [x|]; cbn [put fst snd]; rewrite IH; reflexivity).
+  destruct k; cbn [key_eqb map comp fst snd]; unfold run; cbn [run_gen]; fold step.
+  - destruct (step s1 p) as [x|]; cbn [put fst snd]; rewrite IH; reflexivity.
+  - destruct (step s2 p) as [x|]; cbn [put fst snd]; rewrite IH; reflexivity.
 Qed.
 
 (* each key of the product behaves exactly as the one-key model run on its own picks *)
@@ -178,7 +186,7 @@ Proof.
   intros a1 b1 a2 b2 sched s. destruct (keys_independent a1 b1 a2 b2 sched) as [H1 H2]. fold s in H1, H2.
   rewrite H1, H2.
   pose proof (Inv_run a1 b1 (proj K1 sched)) as I1. pose proof (Inv_run a2 b2 (proj K2 sched)) as I2.
-  repeat split; try assumption; [unfold Inv, Invc in I1|unfold Inv, Invc in I2]; lia.
+  split; [exact I1|]. split; [exact I2|]. unfold Inv, Invc in I1, I2. lia.
 Qed.
 
 (* key K1's work function is held for ever in RWork; meanwhile a call on K2 is made, executed and answered *)
@@ -192,10 +200,10 @@ Proof. vm_compute. auto 10. Qed.
 
 Example call_followed_hyps_satisfiable :
   let s := run (init 1 1) [PB (PCall KC); PB (PAttach KC true)] in
-  exists s', step s (PB (PCall KS)) = Some s' /\
-    terminalb (run s' [PB (PAttach KS false); PB PSleepDone; PB PResolve; PB PReturn; PB PG3]) = true /\
-    v (run s' [PB (PAttach KS false); PB PSleepDone; PB PResolve; PB PReturn; PB PG3]) escaped = 1.
-Proof. vm_compute. eexists. split; [reflexivity|]. vm_compute. auto. Qed.
+  let s' := run s [PB (PCall KS)] in
+  let t := run s' [PB (PAttach KS false); PB PSleepDone; PB PResolve; PB PReturn; PB PG3] in
+  v s' issueds = 1 /\ terminalb t = true /\ v t escaped = 1 /\ v s started = 0 /\ v t started = 1.
+Proof. vm_compute. auto 10. Qed.
 
 Print Assumptions exec_start_after_return.
 Print Assumptions call_followed_by_exec.
